@@ -128,6 +128,10 @@ def gen_gains(rng, n, gclass):
         return np.sort(10.0 ** rng.uniform(-3, 3, n))[::-1].copy()
     if gclass == "integers":        # positive gains given with an integer dtype
         return rng.integers(1, 50, size=n).astype([np.int64, np.int32][int(rng.integers(0, 2))])
+    if gclass == "tiny":            # physical units: power gains of -140..-90 dB
+        return 10.0 ** rng.uniform(-14, -9, n)
+    if gclass == "huge":
+        return 10.0 ** rng.uniform(9, 14, n)
     if gclass == "svals":
         h = rng.standard_normal((n, n)) + 1j * rng.standard_normal((n, n))
         return np.linalg.svd(h, compute_uv=False) ** 2
@@ -135,7 +139,7 @@ def gen_gains(rng, n, gclass):
 
 
 GCLASSES = ["loguniform", "equal", "dominant", "near-equal", "sorted-desc", "svals",
-            "integers"]
+            "integers", "tiny", "huge"]
 
 
 def case_direct(ctx, rng, idx):
@@ -143,6 +147,10 @@ def case_direct(ctx, rng, idx):
     gclass = GCLASSES[idx % len(GCLASSES)]
     g = gen_gains(rng, n, gclass)
     N0 = 10.0 ** rng.uniform(-2, 2)
+    if gclass == "tiny":
+        N0 = 10.0 ** rng.uniform(-15, -9)        # thermal noise in watts
+    elif gclass == "huge":
+        N0 = 10.0 ** rng.uniform(6, 12)
     es_mode = idx % 3
     Es = 1.0 if es_mode == 0 else 10.0 ** rng.uniform(-2, 2)
     # force the number of active channels: choose k, put the level between
